@@ -45,6 +45,8 @@ func run(in *input, em *lib.Emitter, id string) {
 		runEth(in, em, id)
 	case "consts":
 		runConsts(em, id)
+	case "hist":
+		runHist(in, em, id)
 	}
 }
 
@@ -572,6 +574,9 @@ func main() {
 		run(c, em, "corpus-claim-nonce-zero")
 		// one supporter sends its genuine R || S with another recovery byte (witnesses of the
 		// defect fixed in pkg/chain/ethereum/signer.go: the client used to accept it)
+		for k, h := range corpusHistories() {
+			run(h, em, fmt.Sprintf("corpus-hist-%d", k))
+		}
 		for _, m := range wrongVMuts {
 			run(g.wrongVDkg(5, m, true), em, "corpus-supporter-wrong-v-dkg-"+m)
 			run(g.wrongVClaim(4, m), em, "corpus-supporter-wrong-v-claim-"+m)
@@ -696,6 +701,14 @@ func main() {
 		}
 	}
 
+	// --- call histories on long-lived chain handles (hist.go)
+	{
+		g := mk("histories")
+		for k, n := 0, o.Count(72, 600); k < n; k++ {
+			run(g.histCase(k), em, fmt.Sprintf("hist-%d", k))
+		}
+	}
+
 	// --- go-ethereum's packer and keep-common's signer against the model's encodings
 	{
 		g := mk("abi")
@@ -716,7 +729,8 @@ func main() {
 
 	em.Close("a case is one assembled key-generation result (directly or through the submitter) with the "+
 		"hashes its supporters signed, one inactivity claim with its hash and wallet id, one argument list "+
-		"packed by go-ethereum, one message signed by the operator signer, or the constants of both sides; "+
+		"packed by go-ethereum, one message signed by the operator signer, one history of 2-6 hash / sign / assemble / "+
+		"claim / wallet-id calls on long-lived chain handles, or the constants of both sides; "+
 		"distinct by the complete input; a result case is non-trivial when at least one member misbehaved and "+
 		"at least two members support the result, a claim when it accuses and is supported by at least two members",
 		map[string]interface{}{"constants": real, "shortCoordinateKeys": map[string]interface{}{
